@@ -182,7 +182,8 @@ def slash : Bytes := [b_slash]
 /-- proper ancestors of `a/b/c`: `a`, `a/b` (`strings.Split` + `Join` of the leading components) -/
 def ancestors (name : Bytes) : List Bytes :=
   let comps := splitOn b_slash name
-  (List.range (comps.length - 1)).map (fun i => joinWith b_slash (comps.take (i + 1)))
+  ((List.range (comps.length - 1)).map (fun i => joinWith b_slash (comps.take (i + 1)))).filter
+    (fun a => toUpper a ≠ inboxName)    -- INBOX exists under every spelling: never created as an implied parent
 
 def Store.newBox (s : Store) (n : Bytes) (now : Nat) : Store :=
   if n = [] ∨ s.has n then s
@@ -217,6 +218,10 @@ def Store.delete (s : Store) (arg : Bytes) : Store × Res :=
 def relog (b : Mbox) : List Entry :=
   (b.links.map (fun l => ({ inc := b.inc, name := b.name, validity := b.validity, uid := l.uid, msg := l.msg } : Entry))).reverse
 
+/-- what RENAME does to one name: the mailbox itself, and everything below `old/` keeps its suffix -/
+def renamedName (o n m : Bytes) : Bytes :=
+  if m = o then n else if isChildOf o m then n ++ m.drop o.length else m
+
 def namesNodup (bs : List Mbox) : Bool := decide ((bs.map (fun b => b.name)).Nodup)
 
 /-- `HandleRename` + `RenameMailboxPerUser` / `renameInboxPerUser` -/
@@ -239,10 +244,9 @@ def Store.rename (s : Store) (oldArg newArg : Bytes) (now : Nat) : Store × Res 
   else if s.has n then (s, .no)
   else
     let s1 := s.newBoxes (ancestors n) now
-    -- the mailbox itself, then everything that (now) starts with `old/`
-    let step1 := s1.boxes.map (fun b => if b.name = o then { b with name := n } else b)
-    let step2 := step1.map (fun b => if isChildOf o b.name then { b with name := n ++ b.name.drop o.length } else b)
-    if namesNodup step2 then ({ s1 with boxes := step2 }, .ok) else (s1, .no)
+    -- the mailbox itself, and every *other* mailbox whose name starts with `old/` (exact prefix), in one transaction
+    let renamed := s1.boxes.map (fun b => { b with name := renamedName o n b.name })
+    if namesNodup renamed then ({ s1 with boxes := renamed }, .ok) else (s1, .no)
 
 def stripQuotes (a : Bytes) : Bytes :=
   if a.length ≥ 2 ∧ a.head? = some b_dq ∧ a.getLast? = some b_dq then (a.drop 1).take (a.length - 2) else a
